@@ -1,0 +1,38 @@
+//go:build verif
+
+// Contracts for package token, checked by /verif/govc (comment-only; compiled only under tag verif).
+package token
+
+//@ define isC1(t) = startSingleCharTokens < t && t < endSingleCharTokens
+//@ define isC2(t) = startMultiCharTokens < t && t < endMultiCharTokens
+//@ define isIdentity(t) = startIdentityTokens < t && t < endIdentityTokens
+//@ define c1ok(b) = cTokens[b] != nil && len(cTokens[b].literal) == 1 && cTokens[b].literal[0] == b && isC1(cTokens[b].tokenType)
+//@ define c2ok(a, b) = c2Tokens[pair2(a, b)] != nil && len(c2Tokens[pair2(a, b)].literal) == 2 && c2Tokens[pair2(a, b)].literal[0] == a && c2Tokens[pair2(a, b)].literal[1] == b && isC2(c2Tokens[pair2(a, b)].tokenType)
+//@ define endsOK() = EOLT != nil && EOLT.tokenType == EOL && EOFT != nil && EOFT.tokenType == EOF
+//@ define c1all() = c1ok('=') && c1ok('+') && c1ok('-') && c1ok('!') && c1ok('*') && c1ok('/') && c1ok('%') && c1ok('<') && c1ok('>') && c1ok(',') && c1ok(';') && c1ok('(') && c1ok(')') && c1ok('{') && c1ok('}') && c1ok('[') && c1ok(']') && c1ok(':') && c1ok('.') && c1ok('&') && c1ok('|') && c1ok('^') && c1ok('~')
+//@ define c2all() = c2ok('<', '=') && c2ok('>', '=') && c2ok('=', '=') && c2ok('!', '=') && c2ok('+', '+') && c2ok('-', '-') && c2ok('.', '.') && c2ok('|', '|') && c2ok('&', '&') && c2ok('<', '<') && c2ok('>', '>') && c2ok('=', '>') && c2ok(':', '=')
+//@ define keywordsOK() = keywords != nil && forallv(func(k string) bool { return implies(has(keywords, k), allocated(keywords[k]) && same(keywords[k].literal, k) && isIdentity(keywords[k].tokenType)) })
+//@ define internOK() = interning != nil && forallv(func(k Token) bool { return implies(has(interning, k), allocated(interning[k]) && interning[k].tokenType == k.tokenType && same(interning[k].literal, k.literal)) })
+//@ define tablesOK() = endsOK() && c1all() && c2all() && keywordsOK() && internOK()
+
+//@ func InternToken
+//@   requires t != nil && internOK()
+//@   modifies map interning
+//@   ensures  internOK()
+//@   ensures  result != nil && result.tokenType == old(t.tokenType) && result.literal == old(t.literal)
+//@   property C16
+
+//@ func Intern
+//@   requires internOK()
+//@   modifies map interning
+//@   ensures  internOK()
+//@   ensures  result != nil && result.tokenType == t && result.literal == literal
+//@   property C16
+
+//@ func LookupIdent
+//@   requires internOK() && keywordsOK()
+//@   modifies map interning
+//@   ensures  internOK()
+//@   ensures  result != nil && result.literal == ident
+//@   ensures  kind:: result.tokenType == IDENT || isIdentity(result.tokenType)
+//@   property C16
